@@ -259,6 +259,18 @@ func drive(chk *Check, tier string) int {
 		fmt.Printf("INCONCLUSIVE property=%s reason=case-generation-failed\n", chk.ID)
 		return ExitInconclusive
 	}
+	// development aid (never used by registered commands): VERIF_ONLY=<substring> keeps
+	// only the cases whose specification contains the substring; such a partial run
+	// writes its summary outside /verif/evidence.
+	if only := os.Getenv("VERIF_ONLY"); only != "" {
+		var kept []json.RawMessage
+		for _, sp := range specs {
+			if strings.Contains(string(sp), only) {
+				kept = append(kept, sp)
+			}
+		}
+		specs = kept
+	}
 	specFile := filepath.Join(run.Scratch, "specs.json")
 	if err := writeJSON(specFile, specs); err != nil {
 		fmt.Fprintln(os.Stderr, err)
@@ -385,8 +397,15 @@ func drive(chk *Check, tier string) int {
 		"violations":  nViol,
 		"verdict":     []string{"held", "violated", "inconclusive", "harness-error"}[exit],
 	}
-	_ = os.MkdirAll(filepath.Join(Root, "evidence"), 0o755)
-	if err := writeJSON(filepath.Join(Root, "evidence", chk.ID+".json"), evd); err != nil {
+	// Evidence describes runs against /repo only: a run against a scratch copy of the
+	// repository (VERIF_REPO, used to validate the monitors against seeded changes)
+	// writes its summary elsewhere and never touches /verif/evidence.
+	evDir := filepath.Join(Root, "evidence")
+	if r := os.Getenv("VERIF_REPO"); (r != "" && r != "/repo") || os.Getenv("VERIF_ONLY") != "" {
+		evDir = filepath.Join(Root, "bin", "evidence-scratch")
+	}
+	_ = os.MkdirAll(evDir, 0o755)
+	if err := writeJSON(filepath.Join(evDir, chk.ID+".json"), evd); err != nil {
 		fmt.Fprintln(os.Stderr, "evidence:", err)
 	}
 	fmt.Printf("%s %s seed=%d: cases=%d evaluations=%d distinct_nontrivial=%d violations=%d known=%d wall=%.1fs verdict=%s\n",
